@@ -10,3 +10,15 @@ func (r *Runtime) VerifLoaded(name string) bool {
 	_, ok := r.handles[name]
 	return ok
 }
+
+// VerifVM returns the virtual machine currently installed for the named
+// program (nil if none), so that the harness can tell whether a failed reload
+// left the previous version in place.
+func (r *Runtime) VerifVM(name string) interface{} {
+	r.handleMu.RLock()
+	defer r.handleMu.RUnlock()
+	if h, ok := r.handles[name]; ok {
+		return h.vm
+	}
+	return nil
+}
